@@ -236,12 +236,9 @@ class GraphNode(HyperNode):
         Returns:
             Original name used in the inner graph.
         """
-        current = param
-        # Walk rename history in reverse to find original
-        for entry in reversed(self._rename_history):
-            if entry.kind == "inputs" and entry.new == current:
-                current = entry.old
-        return current
+        # Same batch-aware reverse map that map_inputs_to_params() uses, so that
+        # parallel renames (e.g. a swap x<->y) resolve to the right original.
+        return build_reverse_rename_map(self._rename_history, "inputs").get(param, param)
 
     def map_inputs_to_params(self, inputs: dict[str, Any]) -> dict[str, Any]:
         """Map renamed input names back to original inner graph parameter names.
